@@ -550,9 +550,13 @@ def _to_shape_list(region_list, coordinate_system='fk5'):
                 new_coord.append(u.Quantity(val.x, u.dimensionless_unscaled))
                 new_coord.append(u.Quantity(val.y, u.dimensionless_unscaled))
             else:
-                frame = frame_transform_graph.lookup_name(coordsys)
-                new_coord.append(Angle(val.transform_to(frame).spherical.lon))
-                new_coord.append(Angle(val.transform_to(frame).spherical.lat))
+                # the CRTF name of a coordinate system stands for the frame
+                # with its default attributes (e.g., J2000 is FK5 at
+                # equinox J2000), whatever attributes the region's frame has
+                frame = frame_transform_graph.lookup_name(coordsys)()
+                val = val.transform_to(frame, merge_attributes=False)
+                new_coord.append(Angle(val.spherical.lon))
+                new_coord.append(Angle(val.spherical.lat))
 
         meta = dict(region.meta)
         meta.update(region.visual)
